@@ -1056,6 +1056,16 @@ def b_isinstance(ev, args, kwargs, node):
             if ":" in cn:
                 rel, c0 = cn.split(":")
                 chain = [cd.name for _, cd in source.mro(rel, c0)]
+                # base classes outside the repository (typing.Mapping[str, str], abc.ABC, ...) by their simple names;
+                # MutableMapping implies Mapping
+                for _, cd in source.mro(rel, c0):
+                    for b in cd.bases:
+                        n = b.value if isinstance(b, ast.Subscript) else b
+                        nm = n.attr if isinstance(n, ast.Attribute) else (n.id if isinstance(n, ast.Name) else None)
+                        if nm and nm not in chain:
+                            chain.append(nm)
+                if "MutableMapping" in chain and "Mapping" not in chain:
+                    chain.append("Mapping")
             else:
                 chain = [cn]
             return VBool(any(s in chain for s in simple))
